@@ -191,7 +191,8 @@ impl M {
         let os = lc3_ensemble::sim::_os_obj_file();
         let blocks: Vec<Value> = os.verif_block_iter().map(|(s, ws)| json!({"s": s,
             "w": ws.iter().map(|x| x.map(|v| v as i64).unwrap_or(-1)).collect::<Vec<_>>()})).collect();
-        out.emit(json!({"ev": "Os", "blocks": blocks}));
+        let prompt = os.symbol_table().and_then(|s| s.lookup_label("S_IN_PROMPT")).unwrap_or(0);
+        out.emit(json!({"ev": "Os", "blocks": blocks, "prompt": prompt}));
     }
 
     /// `Simulator::reset`; logs whether the MCR handle is still the same Arc.
